@@ -464,9 +464,11 @@ def monitors(tr, props):
                 if comb == 'merge' and (len(terms) != 1 or terms[0][3] != 'c' or (got and got[-1][3] != 'c')):
                     v.append(('C11', 'merge-complete', 'merge: terminal events %s, last=%s' % ([t[3] for t in terms], got[-1][3] if got else None)))
             if comb == 'zip' and limit is None:
+                # the statement fixes WHICH tuples are delivered (the i-th items paired), each once; two threads
+                # that each popped a complete row may deliver them in either order (pop under the lock, emit outside)
                 exp = [a * 100 + b for a, b in zip(p1, p2)]
-                if items != exp:
-                    v.append(('C11', 'zip-tuples', 'zip delivered %s expected %s' % (items, exp)))
+                if sorted(items) != sorted(exp):
+                    v.append(('C11', 'zip-tuples', 'zip delivered %s, the tuples pairing the i-th items are %s' % (items, exp)))
             if comb == 'amb' and limit is None:
                 if items and not (items == p1 or items == p2 or all(x in p1 for x in items) or all(x in p2 for x in items)):
                     v.append(('C11', 'amb-two-winners', 'amb let two inputs through: %s' % items))
@@ -791,6 +793,10 @@ def flips(tr, enc, tried, limit):
     for r in tr.sections:
         cur = tr.writer_of(r)
         cands = [w for w in writes[r.obj] if w is not r and w is not cur and w.task != r.task and w.rel is not None]
+        # r's own task: only its latest earlier write can be observed (when every foreign write in between moves after r)
+        own = [w for w in writes[r.obj] if w.task == r.task and w.rel is not None and w.rel < r.acq]
+        if own and own[-1] is not cur:
+            cands.append(own[-1])
         cands.append(None)  # initial version
         for w in cands:
             if w is None and cur is None:
@@ -991,7 +997,7 @@ def main():
         # every scenario carries the deadlock monitors; the quick tier takes a seed-selected half
         scen = [s for i, s in enumerate(scen) if (i + seed) % 2 == 0]
     # the class budget is the binding one (deterministic); the wall-clock cap only guards against a loaded machine
-    budget = {'classes': 60, 'seconds': 400, 'flips_per_trace': 40} if tier == 'quick' else {'classes': 1500, 'seconds': 1800, 'flips_per_trace': 400}
+    budget = {'classes': int(os.environ.get('P_CLASSES','60')), 'seconds': 400, 'flips_per_trace': int(os.environ.get('P_FLIPS','40'))} if tier == 'quick' else {'classes': 1500, 'seconds': 1800, 'flips_per_trace': 400}
     import multiprocessing as mp
     t0 = time.time()
     with mp.Pool(jobs) as pool:
